@@ -186,7 +186,7 @@ variable (c : Bool) (inst : Instance)
 /-- relative greatest fixed point (of the operator of polarity `c`): the goals that get the
     optimistic value when every goal the state knows is held at its current value -/
 def InG (s : St) (k : Nat) : Prop :=
-  ∃ S : Nat → Prop, (∀ x, S x → Def s x (top c) ∨ (Undef s x ∧ J c inst S x)) ∧ S k
+  ∃ S : Nat → Prop, (∀ x, S x → (Def s x (top c) ∨ Def s x .ambig) ∨ (Undef s x ∧ J c inst S x)) ∧ S k
 
 /-- the optimistic answer for `j` is justified in `s` by nodes at or above `lb`: it is correct
     outright, or a node at `dfn ≥ lb` holds it (if that node is on the stack, its cycle flag is set) -/
@@ -194,15 +194,22 @@ def Wit (s : St) (lb : Min) (j : Nat) : Prop :=
   Tgt c inst j ∨ ∃ (i : Nat) (n : Node), s.graph[i]? = some n ∧ n.goal = j ∧ n.solution = top c ∧ MinLe lb (some i) ∧
     ∀ d, n.stackDepth = some d → flagAt s.stack d
 
-/-- the state invariant (caching may be enabled or not: with `cache = none` nothing is `InCache`) -/
-structure Inv (dom : List Nat) (s : St) : Prop where
-  quiet : s.oracle = [] ∧ s.oracleDefault = true ∧ s.interrupted = false
+/-- the `should_continue` callback will not say "stop" -/
+def QuietSt (s : St) : Prop := s.oracle = [] ∧ s.oracleDefault = true
+
+/-- the state invariant (caching may be enabled or not: with `cache = none` nothing is `InCache`;
+    the `should_continue` oracle is arbitrary: `ambig` values exist only once `interrupted` is set) -/
+structure Inv (dom : List Nat) (fx : Bool) (s : St) : Prop where
+  /-- the repairs F10 and F16 are assumed (`fx`), or solving is not interrupted at all -/
+  fixes : fx = true ∨ (QuietSt s ∧ s.interrupted = false)
+  amb : ∀ (i : Nat) (n : Node), s.graph[i]? = some n → n.solution = .ambig → s.interrupted = true
   cacheOK : ∀ k v, InCache s k v → Corr c inst k v
   stackCo : ∀ e, e ∈ s.stack → e.coinductiveGoal = c
   nodup : (s.graph.map (·.goal)).Nodup
   disj : ∀ (i : Nat) (n : Node), s.graph[i]? = some n → ∀ v, ¬ InCache s n.goal v
   inDom : ∀ (i : Nat) (n : Node), s.graph[i]? = some n → n.goal ∈ dom
-  val : ∀ (i : Nat) (n : Node), s.graph[i]? = some n → n.solution = top c ∨ n.solution = bot c
+  val : ∀ (i : Nat) (n : Node), s.graph[i]? = some n →
+    n.solution = top c ∨ n.solution = bot c ∨ n.solution = .ambig
   approx : ∀ (i : Nat) (n : Node), s.graph[i]? = some n → n.solution = bot c → ¬ Tgt c inst n.goal
   stk : ∀ (i : Nat) (n : Node) (d : Nat), s.graph[i]? = some n → n.stackDepth = some d → d < s.stack.length ∧ n.links = some i
   nonstk : ∀ (i : Nat) (n : Node), s.graph[i]? = some n → n.stackDepth = none → ∃ l, n.links = some l ∧ l < i
@@ -218,10 +225,13 @@ structure Step (s s' : St) (lb : Min) : Prop where
   ext : ∀ k v, Def s k v → Def s' k v
   low : ∀ k, Undef s k → Def s' k (bot c) → ¬ InG c inst s k
   cacheMode : s'.cache.isSome = s.cache.isSome
+  intr : s.interrupted = true → s'.interrupted = true
+  quiet : QuietSt s → QuietSt s' ∧ (s.interrupted = false → s'.interrupted = false)
 
 /-- what a sub-goal call reports about its answer -/
 def Fact (s0 s' : St) (m' : Min) (g : Nat) (v : V) : Prop :=
-  (v = top c ∧ Wit c inst s' m' g) ∨ (v = bot c ∧ ¬ Tgt c inst g ∧ ¬ InG c inst s0 g)
+  (v = top c ∧ Wit c inst s' m' g) ∨ (v = bot c ∧ ¬ Tgt c inst g ∧ ¬ InG c inst s0 g) ∨
+  (v = .ambig ∧ s'.interrupted = true)
 
 end Sem
 
